@@ -78,6 +78,31 @@ MsgTokens(p, psks, k) ==      \* tokens of message k (1-based) of pattern p with
       back  == IF k \in psks THEN <<PskTok(k)>> ELSE <<>>
   IN front \o base \o back
 
+(* ---- the hfs modifier (Noise HFS extension, section 5; interactive patterns only): *)
+(*   "e1" directly after the first DH token of the first message that holds   *)
+(*   an "e" (so that it is encrypted), or directly after that "e" if the      *)
+(*   message has no DH token; "ekem1" directly after the first "ee".          *)
+MinS(S) == CHOOSE x \in S : \A y \in S : x <= y
+IdxSet(toks, T) == { i \in 1..Len(toks) : toks[i] \in T }
+InsertAfter(seq, i, x) == SubSeq(seq, 1, i) \o <<x>> \o SubSeq(seq, i + 1, Len(seq))
+FirstMsgWith(p, tok) ==
+  LET S == { k \in 1..NumMsgs(p) : IdxSet(PatternTable[p].msgs[k], {tok}) # {} } IN
+  IF S = {} THEN 0 ELSE MinS(S)
+HfsBase(p, k) ==
+  LET base == PatternTable[p].msgs[k]
+      w1 == IF k = FirstMsgWith(p, "e")
+            THEN InsertAfter(base, IF IdxSet(base, DhTokens) # {} THEN MinS(IdxSet(base, DhTokens))
+                                   ELSE MinS(IdxSet(base, {"e"})), "e1")
+            ELSE base
+  IN IF k = FirstMsgWith(p, "ee") THEN InsertAfter(w1, MinS(IdxSet(w1, {"ee"})), "ekem1") ELSE w1
+HfsApplies(p) == p \notin OneWay
+
+MsgTokensH(p, psks, hfs, k) ==
+  LET base == IF hfs THEN HfsBase(p, k) ELSE PatternTable[p].msgs[k]
+      front == IF k = 1 /\ 0 \in psks THEN <<"psk0">> ELSE <<>>
+      back  == IF k \in psks THEN <<PskTok(k)>> ELSE <<>>
+  IN front \o base \o back
+
 IsPsk(psks) == psks # {}
 
 (* A choice = pattern + psk set *)
